@@ -480,13 +480,14 @@ class _:
         f0 = estimate(init, fs, fv, fw, f, None, False, None)
         if abs(f0 - trace[0]) > 1e-9 * max(1.0, abs(f0)):
             raise Fail("trace-start-is-not-the-start-objective", f"{case}: {trace[0]} vs {f0}")
-        if fM > f0 + 1e-9 * max(1.0, abs(f0)):
-            raise Fail(f"returned-model-worse-than-start:{case['opt']}", f"{case}: {fM} > {f0}")
-        if abs(fM - fin.min()) > 1e-7 * max(1.0, abs(fM)):
+        # comparisons written so that an undefined (NaN) estimate of the returned model fails them
+        if not fM <= f0 + 1e-9 * max(1.0, abs(f0)):
+            raise Fail(f"returned-model-worse-than-start:{case['opt']}", f"{case}: {fM} vs start {f0}, trace {trace.tolist()}")
+        if not abs(fM - fin.min()) <= 1e-7 * max(1.0, abs(fM)):
             raise Fail(f"returned-model-is-not-the-best-of-trace:{case['opt']}", f"{case}: est {fM}, trace {trace.tolist()}")
         # reuse: a second solve with the same arguments and seed gives the same answer
         M2, info2 = one_solve(case["seed"])
-        if any(not np.allclose(a, b, rtol=1e-9, atol=1e-12) for a, b in zip(M.factor_matrices, M2.factor_matrices)):
+        if any(not np.allclose(a, b, rtol=1e-9, atol=1e-12, equal_nan=True) for a, b in zip(M.factor_matrices, M2.factor_matrices)):
             raise Fail(f"second-solve-depends-on-first:{case['opt']}", f"{case}")
         # reuse after a solve of a different problem size: same answer as a fresh solver object
         big = (6, 5, 4)
